@@ -5,28 +5,28 @@
     `inRange`, `valid : DT → Option Int → Val → Bool` (the total classification of (dtype, length, value)),
     `encode` (the bits a valid triple must produce), `effLen` (the length a plain property assignment uses),
     `windowSpec` (a window `offset, length` over `n` source bits: `0 ≤ off ∧ 0 ≤ len ∧ off + len ≤ n`).
-  ALG layer (the code, function by function):
+  ALG layer (the code, function by function; line numbers of /repo at a428504):
     bitstore_helpers.py  tidy_input_string (18), bin2bitstore (37), hex2bitstore (50), oct2bitstore (60),
-                         ue/se/uie/sie2bitstore (70-111, from Model/C10), bfloat2bitstore (114),
-                         p4binary2bitstore … mxint2bitstore (125-209: the LUT code crosses the wire, see `Val.code`),
-                         int2bitstore (212-229) on top of bitarray.util.int2ba, intle2bitstore (232-234),
-                         float2bitstore (237-246), bitstore_from_token (259-270)
-    bits.py              __new__ (113-125), _initialise keyword route (135-166), _setauto BytesIO branch (518-536),
-                         _setfile (547-566), _setbitarray (568-579), _setbits (581), _setbytes (613),
-                         _setbytes_with_truncation (617-630), _setuint … _setintle (648-725),
-                         _setfloat (772-777), _setbfloatbe/le (799-811), _setue/se/uie/sie (813-928),
-                         _setbool (947-955), _setbin_safe/_setoct/_sethex (966-988)
-    bitstore.py          BitStore.frombuffer (61-79), tobytes (84), getslice_msb0 (225-230)
-    dtypes.py            Dtype.__new__ (58-67), Dtype._create (139-163), Dtype.build (165-174),
-                         AllowedLengths.__contains__ / only_one_value (225-236), get_dtype (320-337)
-    bitarray_.py         BitArray.__setattr__ (123-137), overwrite (364-380)
+                         ue/se/uie/sie2bitstore (70-106, from Model/C10), bfloat2bitstore (109),
+                         p4binary2bitstore … mxint2bitstore (120-209: the LUT code crosses the wire, see `Val.code`),
+                         int2bitstore (212-228) on top of bitarray.util.int2ba, intle2bitstore (231-233),
+                         float2bitstore (236-245), bitstore_from_token (257-270)
+    bits.py              __new__ (114-126), _initialise keyword route (136-171), _setauto BytesIO branch (525-543),
+                         _setfile (554-577), _setbitarray (579-590), _setbits (592), _setbytes (624),
+                         _setbytes_with_truncation (628-641), _setuint … _setintle (659-736),
+                         _setfloat (783-788), _setbfloatbe/le (810-822), _setue/se/uie/sie (824-939),
+                         _setbool (958-966), _setbin_safe/_setoct/_sethex (977-999)
+    bitstore.py          BitStore.frombuffer (63-81), tobytes (86), getslice_msb0 (229-234)
+    dtypes.py            Dtype.__new__ (58-67), Dtype._create (148-172), Dtype.build (174-183),
+                         AllowedLengths.__contains__ / only_one_value (240-248), get_dtype (323-342)
+    bitarray_.py         BitArray.__setattr__ (131-145), overwrite (364-382)
     methods.py           pack (61-79: the 'bits' special case, then bitstore_from_token)
     array_.py            _create_element (171-176), __setitem__ integer key (237-244)
-    __init__.py          dtype_definitions (213-277)
+    __init__.py          dtype_definitions (212-281)
   Modelled, not verified: bitarray's `int2ba` ("ValueError if length ≤ 0, OverflowError iff the value is outside
   the range, else the two's complement bits"), `hex2ba`/`base2ba`/`bitarray(str)` (one digit per 4/3/1 bits,
   ValueError on any other character), `frombytes`/`tobytes` (8 bits per byte, last byte zero padded), Python slicing
-  (`Py.sliceIndices`), `divmod`, `mmap` (ValueError on an empty file).
+  (`Py.sliceIndices`), `divmod`, `mmap`.
 
   Wire conventions (stated, not hidden): a string that Python's `int()` / `float()` accepts crosses as the
   number it denotes (`Val.int` / `Val.float`), a string they reject crosses as `Val.str`; floats cross as their
@@ -88,7 +88,7 @@ def padRight8 (g : Bits) : Bits := g ++ List.replicate (8 - g.length) false
 /-- `BitStore.frombytes(x.tobytes()[::-1])`: ⌈len/8⌉ byte groups (last one zero padded), order reversed. -/
 def bytesRev (b : Bits) : Bits := ((groups8 ((b.length + 7) / 8) b).map padRight8).reverse.flatten
 
-/-- `intle2bitstore` (bitstore_helpers.py:232). -/
+/-- `intle2bitstore` (bitstore_helpers.py:231). -/
 def intle2bits (i length : Int) (signed : Bool) : Except Err Bits :=
   match int2bits i length signed with
   | .error e => .error e
@@ -168,13 +168,13 @@ inductive Allowed where
   | oneOf (l : List Int)
   deriving DecidableEq, Repr
 
-/-- `AllowedLengths.__contains__` (dtypes.py:225): Python `%` is floor-mod; the divisor is positive here. -/
+/-- `AllowedLengths.__contains__` (dtypes.py:240): Python `%` is floor-mod; the divisor is positive here. -/
 def Allowed.contains : Allowed → Int → Bool
   | .any, _ => true
   | .step a b, n => (n - a) % (b - a) == 0
   | .oneOf l, n => l.contains n
 
-/-- `only_one_value()` (dtypes.py:232) together with `values[0]`. -/
+/-- `only_one_value()` (dtypes.py:247) together with `values[0]`. -/
 def Allowed.onlyOne : Allowed → Option Int
   | .oneOf [x] => some x
   | _ => none
@@ -202,7 +202,7 @@ def defOf : DT → Def
   | .fx6 => ⟨1, .oneOf [6], false, false⟩
   | .fx4 => ⟨1, .oneOf [4], false, false⟩
 
-/-- `DtypeDefinition.get_dtype(length)` (dtypes.py:320): the dtype's `length` (in items), or ValueError.
+/-- `DtypeDefinition.get_dtype(length)` (dtypes.py:323): the dtype's `length` (in items), or ValueError.
     (`if self.allowed_lengths:` is always true — the class defines neither `__bool__` nor `__len__`.) -/
 def getDtype (d : DT) (len : Option Int) : Except Err (Option Int) :=
   let df := defOf d
@@ -214,9 +214,10 @@ def getDtype (d : DT) (len : Option Int) : Except Err (Option Int) :=
   | some n =>
     if !df.allowed.contains n then .error .value
     else if df.varLen then .error .value
+    else if n < 0 then .error .value                -- "A negative length … was supplied" (dtypes.py:338)
     else .ok (some n)
 
-/-- `Dtype.bitlength` (dtypes.py:143-146). -/
+/-- `Dtype.bitlength` (dtypes.py:152-155). -/
 def bitLen (d : DT) (dl : Option Int) : Option Int := dl.map (· * (defOf d).mult)
 
 /-! ## 4. Values -/
@@ -234,7 +235,7 @@ def fromBytes (d : List Nat) : Bits := d.flatMap (natToBits 8)
 
 /-! ## 5. The set functions (bits.py) -/
 
-/-- `if length is None and hasattr(self, 'len') and len(self) != 0: length = len(self)` (bits.py:651).
+/-- `if length is None and hasattr(self, 'len') and len(self) != 0: length = len(self)` (bits.py:662).
     `cur = none`: the object has no `_bitstore` yet (`hasattr` is False). -/
 def lenOrCur (len : Option Int) (cur : Option Nat) : Option Int :=
   match len, cur with
@@ -247,7 +248,7 @@ def asInt : Val → Except Err Int
   | .str _ => .error .value              -- int('abc')
   | _ => .error .type                    -- outside the generated domain
 
-/-- `_setuint/_setint/_setuintbe/_setintbe/_setuintle/_setintle` (bits.py:648-725). -/
+/-- `_setuint/_setint/_setuintbe/_setintbe/_setuintle/_setintle` (bits.py:659-736). -/
 def setInt (signed le : Bool) (v : Val) (len : Option Int) (cur : Option Nat) : Except Err Bits :=
   match lenOrCur len cur with
   | none => .error .value
@@ -257,11 +258,11 @@ def setInt (signed le : Bool) (v : Val) (len : Option Int) (cur : Option Nat) : 
     | .error e => .error e
     | .ok i => if le then intle2bits i n signed else int2bits i n signed
 
-/-- `float2bitstore` (237) / `bfloat2bitstore` (114) after `float(f)`. -/
+/-- `float2bitstore` (236) / `bfloat2bitstore` (109) after `float(f)`. -/
 def floatBits (le : Bool) (n : Nat) (c : Nat) : Bits :=
   if le then bytesRev (natToBits n c) else natToBits n c
 
-/-- `_setfloat` (bits.py:772). -/
+/-- `_setfloat` (bits.py:783). -/
 def setFloat (le : Bool) (v : Val) (len : Option Int) (cur : Option Nat) : Except Err Bits :=
   match lenOrCur len cur with
   | none => .error .value
@@ -273,7 +274,7 @@ def setFloat (le : Bool) (v : Val) (len : Option Int) (cur : Option Nat) : Excep
       | _ => .error .type
     else .error .value
 
-/-- `_setbfloatbe/_setbfloatle` (bits.py:799-811): the two most significant bytes of the binary32 pattern. -/
+/-- `_setbfloatbe/_setbfloatle` (bits.py:810-822): the two most significant bytes of the binary32 pattern. -/
 def setBfloat (le : Bool) (v : Val) (len : Option Int) : Except Err Bits :=
   match len with
   | some n => if n ≠ 16 then .error .value else body
@@ -284,7 +285,7 @@ where body : Except Err Bits :=
   | .str _ => .error .value
   | _ => .error .type
 
-/-- `_setbool` (bits.py:947): `value in (1, 'True', '1')` / `(0, 'False', '0')`, else CreationError. -/
+/-- `_setbool` (bits.py:958): `value in (1, 'True', '1')` / `(0, 'False', '0')`, else CreationError. -/
 def setBool (v : Val) : Except Err Bits :=
   match v with
   | .int i => if i = 1 then .ok [true] else if i = 0 then .ok [false] else .error .value
@@ -336,14 +337,14 @@ def setFn (d : DT) (v : Val) (len : Option Int) (cur : Option Nat) : Except Err 
   | .fx6 => setFx 6 v
   | .fx4 => setFx 4 v
 
-/-- `Dtype.set_fn` as built by `Dtype._create` (dtypes.py:153-159): `length=bitlength` is bound only if the
+/-- `Dtype.set_fn` as built by `Dtype._create` (dtypes.py:162-168): `length=bitlength` is bound only if the
     definition's set function has a `length` parameter. -/
 def callSet (d : DT) (dl : Option Int) (v : Val) (cur : Option Nat) : Except Err Bits :=
   setFn d v (if (defOf d).needsLen then bitLen d dl else none) cur
 
 /-! ## 6. Creation routes -/
 
-/-- `Dtype(name, len).build(v)` (dtypes.py:165); `len = none` is `Dtype(name)`. -/
+/-- `Dtype(name, len).build(v)` (dtypes.py:174); `len = none` is `Dtype(name)`. -/
 def build (d : DT) (len : Option Int) (v : Val) : Except Err Bits :=
   match getDtype d len with
   | .error e => .error e
@@ -355,7 +356,7 @@ def build (d : DT) (len : Option Int) (v : Val) : Except Err Bits :=
       | some n => if (b.length : Int) ≠ n then .error .value else .ok b
       | none => .ok b
 
-/-- `bitstore_from_token(name, len, value)` (bitstore_helpers.py:259): token strings and `pack`. -/
+/-- `bitstore_from_token(name, len, value)` (bitstore_helpers.py:257): token strings and `pack`. -/
 def fromToken (d : DT) (len : Option Int) (v : Val) : Except Err Bits :=
   match getDtype d len with
   | .error e => .error e                          -- "Can't parse token"
@@ -383,7 +384,7 @@ def pySlice {α} (l : List α) (a b : Option Int) : List α :=
   let r := Py.sliceIndices a b 1 l.length
   (l.drop r.1.toNat).take (r.2.1 - r.1).toNat
 
-/-- `_setbytes_with_truncation` (bits.py:617). -/
+/-- `_setbytes_with_truncation` (bits.py:628). -/
 def bytesWin (data : List Nat) (off len : Option Int) : Except Err Bits :=
   match off, len with
   | none, none => .ok (fromBytes data)
@@ -398,7 +399,7 @@ def bytesWin (data : List Nat) (off len : Option Int) : Except Err Bits :=
       if length + offset > n then .error .value
       else .ok (pySlice (fromBytes data) (some offset) (some (offset + length)))
 
-/-- `_setbitarray` (bits.py:568). -/
+/-- `_setbitarray` (bits.py:579). -/
 def bitarrayWin (ba : Bits) (off len : Option Int) : Except Err Bits :=
   let offset := off.getD 0
   if offset > ba.length then .error .value else
@@ -408,7 +409,7 @@ def bitarrayWin (ba : Bits) (off len : Option Int) : Except Err Bits :=
     if offset + length > ba.length then .error .value
     else .ok (pySlice ba (some offset) (some (offset + length)))
 
-/-- The `io.BytesIO` branch of `_setauto` (bits.py:522-536). -/
+/-- The `io.BytesIO` branch of `_setauto` (bits.py:529-543). -/
 def bytesioWin (data : List Nat) (off len : Option Int) : Except Err Bits :=
   match off, len with
   | none, none => .ok (fromBytes data)
@@ -424,11 +425,10 @@ def bytesioWin (data : List Nat) (off len : Option Int) : Except Err Bits :=
       let chunk := pySlice data (some byteoffset) (some (byteoffset + bytelength))
       .ok (pySlice (fromBytes chunk) (some offset) (some (offset + length)))
 
-/-- `_setfile` (bits.py:547) with `BitStore.frombuffer` (bitstore.py:61); a file handle takes the same path
-    (`_setauto`, bits.py:538: `self._setfile(s.name, length, offset)`). `mmap` refuses an empty file. -/
+/-- `_setfile` (bits.py:554) with `BitStore.frombuffer` (bitstore.py:63); a file handle takes the same path
+    (`_setauto`, bits.py:543: `self._setfile(s.name, length, offset)`). -/
 def fileWin (data : List Nat) (off len : Option Int) : Except Err Bits :=
-  if data.length = 0 then .error .value else             -- mmap.mmap(fileno, 0): ValueError
-  let all := fromBytes data
+  let all := fromBytes data                              -- an empty file is read as b'' (bits.py:557)
   let offset := off.getD 0
   if offset = 0 then
     match len with
@@ -446,8 +446,14 @@ def fileWin (data : List Nat) (off len : Option Int) : Except Err Bits :=
       let r := pySlice all (some offset) (some (offset + l))
       if (r.length : Int) ≠ l then .error .value else .ok r
 
-/-- `Cls(name=v, length=len, offset=off)` (bits.py:146-166).  `bytes=` is the window route; every other
-    keyword refuses `offset`; there is NO check of the resulting length. -/
+/-- `if d.bitlength is not None and len(self) != d.bitlength: raise CreationError` (bits.py:169). -/
+def checkLen (d : DT) (dl : Option Int) (b : Bits) : Except Err Bits :=
+  match bitLen d dl with
+  | some n => if (b.length : Int) ≠ n then .error .value else .ok b
+  | none => .ok b
+
+/-- `Cls(name=v, length=len, offset=off)` (bits.py:147-171).  `bytes=` is the window route; every other
+    keyword refuses `offset`; the resulting length is compared with the dtype's. -/
 def kwRoute (d : DT) (v : Val) (len off : Option Int) : Except Err Bits :=
   match d, v with
   | .bytes, .bytes ds => bytesWin ds off len
@@ -455,22 +461,28 @@ def kwRoute (d : DT) (v : Val) (len off : Option Int) : Except Err Bits :=
     if off.isSome then .error .value else
     match getDtype d len with
     | .error e => .error e
-    | .ok dl => callSet d dl v none                 -- the new object has no store yet
+    | .ok dl =>
+      match callSet d dl v none with                -- the new object has no store yet
+      | .error e => .error e
+      | .ok b => checkLen d dl b
 
-/-- `Cls(**{f'{name}{n}': v})`: `Dtype(k)` parses name and length (dtypes.py:61, 133); no resulting-length check.
+/-- `Cls(**{f'{name}{n}': v})`: `Dtype(k)` parses name and length (dtypes.py:61, 133), then as above.
     A negative `n` cannot be written (`'uint-8'` is no dtype name). -/
 def kwnRoute (d : DT) (n : Int) (v : Val) : Except Err Bits :=
   if n < 0 then .error .value else
   match getDtype d (some n) with
   | .error e => .error e
-  | .ok dl => callSet d dl v none
+  | .ok dl =>
+    match callSet d dl v none with
+    | .error e => .error e
+    | .ok b => checkLen d dl b
 
 /-- `a.<name> = v` through the class property (fset = the definition's raw set function): no `length`
     argument, the object's current length is used by the int and float setters. -/
 def propSet (d : DT) (cur : Bits) (v : Val) : Except Err Bits :=
   setFn d v none (some cur.length)
 
-/-- `a.<name><n> = v` through `BitArray.__setattr__` (bitarray_.py:123). -/
+/-- `a.<name><n> = v` through `BitArray.__setattr__` (bitarray_.py:131). -/
 def propnSet (d : DT) (n : Int) (v : Val) : Except Err Bits :=
   if n < 0 then .error .value else
   match getDtype d (some n) with
@@ -622,15 +634,6 @@ def windowSpec (src : Bits) (off len : Option Int) : Except Err Bits :=
   if 0 ≤ o ∧ 0 ≤ l ∧ o + l ≤ src.length then .ok ((src.drop o.toNat).take l.toNat) else .error .value
 
 /-! ### regions where the pinned tree deviates (same names in `REGIONS` of harness/props/C15.py) -/
-
-def lenUncheckedKind : DT → Bool
-  | .hex | .oct | .bin | .bits | .bytes => true
-  | _ => false
-
-/-- `kw_len_unchecked`: keyword / name-with-length creation of hex, oct, bin, bits (and `bytesN=`) accepts a
-    value whose length is not the stated one (the stated length is allowed for the dtype, the value is fine). -/
-def kwLenUnchecked (d : DT) (len : Option Int) (v : Val) : Bool :=
-  lenUncheckedKind d && len.isSome && (defOf d).allowed.contains (len.getD 0) && valid d none v && !valid d len v
 
 /-- `prop_endian_not_whole_bytes`: `a.uintbe = v` … on an object whose length is not a multiple of 8. -/
 def propEndianNotWhole (d : DT) (cur : Bits) : Bool :=
